@@ -101,6 +101,7 @@ VIRTUAL = {}        # virtual class -> (bases, members)
 SHAPES = {}         # class -> {field: type string}
 TRUSTED_NOTES = {}  # fid/abstract id -> human text for evidence
 GLOBALS = {}        # module-level name -> python constant | ("sentinel", n)
+EXT_EXC = {}        # exception class defined outside behave -> base class name
 MACROS = {}         # name -> (param names, contract-language text): expanded in place in clauses
 
 
@@ -143,3 +144,8 @@ def global_const(name, value):
 
 def macro(name, params, text):
     MACROS[name] = (list(params), text)
+
+
+def external_exception(name, base="Exception"):
+    """An exception class of a third-party package that behave raises or catches by name."""
+    EXT_EXC[name] = base
